@@ -158,6 +158,10 @@ def pool():
     P['sky-annulus-ellipse'] = R.EllipseAnnulusSkyRegion(c, 2 * u.arcsec, 5 * u.arcsec, 1 * u.arcsec, 3 * u.arcsec, angle=10 * u.deg,
                                                          meta=M(), visual=V())
     P['sky-compound'] = R.CircleSkyRegion(c, 3 * u.arcsec, meta=M()) & R.CircleSkyRegion(c, 5 * u.arcsec)
+    # CRTF spectral / polarisation metadata: containers whose ELEMENT TYPES must survive serialisation too
+    P['sky-circle-spectral'] = R.CircleSkyRegion(c, 3.5 * u.arcsec, meta=RegionMeta({'label': 'lab', 'range': [1.42 * u.GHz, 1.43 * u.GHz],
+                                                                                 'corr': ['I', 'Q'], 'restfreq': '1.42GHz', 'veltype': 'RADIO',
+                                                                                 'frame': 'TOPO'}), visual=V())
     return P
 
 
@@ -340,6 +344,22 @@ def _parse_fp(fmt, text):
             return ('error', type(ex).__name__, str(ex)[:100])
 
 
+def _convert_pool():
+    """regions for the conversion histories: sky regions whose centres have the same numbers in different frames / equinoxes"""
+    import regions as R
+    from regions import PixCoord
+    from astropy.coordinates import SkyCoord, FK5, FK4
+    out = {}
+    for nm, fr in (('icrs', 'icrs'), ('fk5-j2000', FK5(equinox='J2000')), ('fk5-j1950', FK5(equinox='J1950')), ('fk4-b1950', FK4(equinox='B1950')),
+                   ('galactic', 'galactic')):
+        c = SkyCoord(10.001, 20.002, unit='deg', frame=fr)
+        out[f'sky-circle/{nm}'] = R.CircleSkyRegion(c, 3.5 * u.arcsec)
+        out[f'sky-ellipse/{nm}'] = R.EllipseSkyRegion(c, 6 * u.arcsec, 3 * u.arcsec, angle=25 * u.deg)
+    out['pix-circle'] = R.CirclePixelRegion(PixCoord(30.25, 41.5), 4.75)
+    out['pix-ellipse'] = R.EllipsePixelRegion(PixCoord(30.25, 41.5), 8.5, 3.25, angle=0.6 * u.rad)
+    return out
+
+
 def _serialize_variants():
     out = []
     for fmt, kws in (('ds9', [{}, {'precision': 2}]),
@@ -410,6 +430,31 @@ def order_case(which):
                 if x != y:
                     _viol(res, which, f'parse text #{j} after text #{i}', 'result differs from parsing it first in a fresh process')
         res['samples'].append({'case': res['name'], 'texts': len(texts), 'pairs': len(texts) ** 2})
+    elif which == 'convert':
+        # conversions through ONE WCS object: B after A gives what B gives first
+        kinds = list(_convert_pool())
+
+        def conv(w, k):
+            r = _convert_pool()[k]
+            try:
+                return fp(r.to_pixel(w)) if not _is_pix(r) else fp(r.to_sky(w))
+            except Exception as ex:  # noqa
+                return ('error', type(ex).__name__, str(ex)[:100])
+
+        def first():
+            return [conv(make_wcs(), k) for k in kinds]            # a new WCS object for every conversion
+        fresh = _fork(first)
+        for a in kinds:
+            def seq(a=a):
+                w = make_wcs()
+                conv(w, a)
+                return [conv(w, k) for k in kinds]
+            after = _fork(seq)
+            for k, x, y in zip(kinds, after, fresh):
+                res['obligations'] += 1
+                if x != y:
+                    _viol(res, which, f'convert {k} after converting {a} with the same WCS object', 'result differs from converting it first with a fresh WCS object')
+        res['samples'].append({'case': res['name'], 'kinds': len(kinds), 'pairs': len(kinds) ** 2})
     else:
         variants = _serialize_variants()
         kinds = ['circle', 'ellipse', 'rectangle', 'polygon', 'annulus-circle', 'text', 'point', 'line', 'sky-circle', 'sky-ellipse',
@@ -487,7 +532,7 @@ def cases(tier, seed):
     out = [(name, functools.partial(chk.run_case, 'C13', name, h, max_paths=1500)) for name, h in harnesses(tier)]
     for kind in pool():
         out.append((f'frame/{kind}', functools.partial(frame_case, kind)))
-    for which in ('parse-ds9', 'parse-crtf', 'serialize'):
+    for which in ('parse-ds9', 'parse-crtf', 'serialize', 'convert'):
         out.append((f'order/{which}', functools.partial(order_case, which)))
     return out
 
@@ -498,8 +543,8 @@ META = {
                           'executed frame conditions: 30+ operations x 22 region kinds (incl. sky, compound) on the real library',
                           'order independence: DS9 / CRTF parse and DS9/CRTF/FITS serialise variants, each sequence in a fresh forked interpreter'],
     'bounds': {'quick': {'symbolic': 'all real parameter values, one call of each of 10 operations per class',
-                         'executed': 'one concrete pool (22 regions), every operation twice',
-                         'histories': 'length 2 (A then B) over all pairs of 29 DS9 texts / 12 CRTF texts / 9 serialiser option sets x 14 regions; '
+                         'executed': 'one concrete pool (23 regions, one with CRTF spectral metadata), every operation twice',
+                         'histories': 'length 2 (A then B) over all pairs of 29 DS9 texts / 12 CRTF texts / 9 serialiser option sets x 14 regions / 12 conversions through one WCS object; '
                                       'longer histories follow from the frame invariant (inputs + module state unchanged by every operation)'}},
     'outside_claim': ['state outside the fingerprint (astropy caches)', 'histories longer than 2 are covered by the invariant argument only',
                       'the executed frame conditions and the order-independence differential are enumerated executions of the real '
